@@ -68,9 +68,9 @@ func main() {
 			topo, _, prov, pp := netgen.PathTerms(w, s)
 			port, ok, _ := s.Desc.L4.DstPort()
 			term := vgen.App("Prov.CReply", topo, vgen.N(uint64(back.NowNs)), back.MacsTerm(), prov, pp,
-				drec.Gallina(port, ok),
+				netgen.RecTerm(drec, port, ok),
 				vgen.N(uint64(p.ReplyFrom.Type)), vgen.Bytes(p.ReplyFrom.Raw), vgen.N(uint64(rrec.PayLen)),
-				vgen.Opt(vgen.N(uint64(rport)), true), rrec.Gallina(rport, true), "true", back.TraceTerm())
+				vgen.Opt(vgen.N(uint64(rport)), true), netgen.RecTerm(rrec, rport, true), "true", back.TraceTerm())
 			w.Tallies(run, p, back)
 			run.Tally("reverse:" + netgen.ReplyHow[how])
 			desc["reply_raw"] = fmt.Sprintf("%x", rraw)
